@@ -7,6 +7,7 @@
 """
 Dict field.
 """
+import copy
 from typing import Any, Dict, List, Optional, Sequence, Tuple, TypeVar, Union
 
 from ..core import AnyField, Config, Field, ValidationError
@@ -199,6 +200,9 @@ class DictField(Field):
 
     def __setdefault__(self, cfg: Config) -> None:
         default = self.default
+        if isinstance(default, dict):
+            # every configuration gets its own copy of the default, nested containers included
+            default = copy.deepcopy(default)
         if isinstance(default, dict) and self._use_proxy:
             default = DictProxy(cfg, self, default)
         elif default is not None:
